@@ -6,8 +6,9 @@ iff the following structural conditions hold; they are decided on the abstract e
 functions, anchored by role (the function that matches on naga::Statement / on naga::Expression):
   1 traversal exhaustiveness: every (variant, field) of naga::Statement whose type holds a Block or a Handle<Function>
     (enumerated from the pinned naga source) is followed by a recursive call, with no condition other than the variant test
-    and the visited-set guard; statements are iterated from the whole block; Expression::CallResult is followed and
-    Expression::GlobalVariable updates the stage map;
+    and the visited-set guard; statements are iterated from the whole block; Expression::CallResult is followed - or every
+    Statement::Call is, with or without a result (each CallResult is the result of exactly one call statement of the same
+    function: validated IR invariant) - and Expression::GlobalVariable updates the stage map;
   2 stage propagation: recursive calls pass module, map and stage parameters unchanged; the map update is
     entry(name of that global).or_insert(NONE) joined with the stage by union;
   3 seeding: the driver runs over all entry points (no adapter), seeds Vertex->VERTEX, Fragment->FRAGMENT,
@@ -249,6 +250,8 @@ def run(rep, sub=False):
         return False
 
     # ---- 1. traversal ---------------------------------------------------------------------------------------------------
+    stmt_call_all = [False]       # every Statement::Call is followed, unconditionally (decided when that pair is checked, before the expression pairs)
+
     def check_pair(enum, v, f, callee_set, what, kind):
         variant = f'naga::{enum}::{v}'
         hits = []
@@ -266,6 +269,13 @@ def run(rep, sub=False):
             elif any(derived_from(a, target) for a in e['args']):
                 hits.append((e, scr[0], pos, target))
         key = f'{enum}::{v}.{f}'
+        if not hits and enum == 'Expression' and v == 'CallResult' and stmt_call_all[0]:
+            # naga's IR invariant: an Expression::CallResult is the result of exactly one Statement::Call of the same callee in a block of the same
+            # function (the validator rejects anything else), so a walker that follows *every* call statement - with or without a result - has
+            # followed the callee already
+            rep.ok('C03.1.traversal', 'traversal:' + key, fwhere(sorted(FW)[0]) if FW else '',
+                   'not followed separately: every Statement::Call is followed whether or not it has a result, and each CallResult belongs to one')
+            return
         if not hits:
             rep.bad('C03.1.traversal', 'traversal:' + key, fwhere(sorted(BW if enum == 'Statement' else FW)[0]),
                     f'{key} ({what}) is not followed by the stage walker: accesses and calls placed there are invisible, so a using stage goes missing')
@@ -275,7 +285,9 @@ def run(rep, sub=False):
         if enum == 'Statement' and v == 'Call':
             # `Statement::Call { result: None, .. }`: calls with a result are left to their Expression::CallResult, which naga's IR invariant
             # guarantees to exist in the same function's arena for the same callee (that arm is checked as its own pair below)
+            n_extra0 = len(extra)
             extra = [c for c in extra if not (c[0] == 'is' and c[1] == ('vf', scr[1], scr[2], 'result') and c[2].split('::')[-1] == 'None')]
+            stmt_call_all[0] = not extra and n_extra0 == 0 and len(hits) >= 1
         # conditions contributed by enclosing matches on other values (e.g. the loop element binding) are not extras if they test the same scrutinee
         rep.check(not extra, 'C03.1.traversal', 'traversal:' + key, where(e),
                   f'{key} is followed only under additional condition(s) {[E.show(c, maxdepth=4) for c in extra][:3]}: some placements are skipped',
